@@ -417,30 +417,104 @@ func lastStoreIsNil(load *ssa.UnOp) bool {
 	return last != nil && isNilConst(last.Val)
 }
 
-// calleeMayRetain: the function has a result that can carry a pointer (pointer,
-// interface, struct, slice, map) or stores into the heap — a conservative
-// "may keep its argument".
+// calleeMayRetain: the pointer handed to the callee as one of its arguments may be
+// kept by it — returned, stored into the heap, or handed on to a function that may
+// keep it (reflection and unknown library code count as "may keep"). Dereferencing,
+// comparing and copying the pointee do not keep the pointer.
 func calleeMayRetain(c *ssa.Function) bool {
-	res := c.Signature.Results()
-	for i := 0; i < res.Len(); i++ {
-		switch res.At(i).Type().Underlying().(type) {
-		case *types.Basic:
-		default:
-			if !errLike(res.At(i).Type()) {
-				return true
+	for i := range c.Params {
+		if _, isPtr := c.Params[i].Type().Underlying().(*types.Pointer); !isPtr {
+			if _, isIface := c.Params[i].Type().Underlying().(*types.Interface); !isIface {
+				continue
 			}
 		}
+		if paramMayEscape(c, i, 0, map[*ssa.Function]bool{}) {
+			return true
+		}
 	}
-	for _, b := range c.Blocks {
-		for _, ins := range b.Instrs {
-			if st, ok := ins.(*ssa.Store); ok {
-				if _, isLocal := st.Addr.(*ssa.Alloc); !isLocal {
+	return false
+}
+
+var nonRetainingExternals = map[string]bool{
+	"encoding/json.Marshal": true, "reflect.DeepEqual": true, "fmt.Sprintf": true, "fmt.Sprint": true, "fmt.Errorf": true, "fmt.Sprintln": true,
+	"reflect.TypeOf": true,
+}
+
+func paramMayEscape(fn *ssa.Function, idx int, depth int, visiting map[*ssa.Function]bool) bool {
+	if fn == nil || fn.Blocks == nil || depth > 4 || idx >= len(fn.Params) {
+		return true
+	}
+	if visiting[fn] {
+		return false
+	}
+	visiting[fn] = true
+	defer delete(visiting, fn)
+	seen := map[ssa.Value]bool{}
+	var walk func(v ssa.Value) bool
+	walk = func(v ssa.Value) bool {
+		if seen[v] || v.Referrers() == nil {
+			return false
+		}
+		seen[v] = true
+		for _, ref := range *v.Referrers() {
+			switch x := ref.(type) {
+			case *ssa.Return:
+				return true
+			case *ssa.Store:
+				if x.Val != v {
+					continue
+				}
+				if al, isLocal := x.Addr.(*ssa.Alloc); isLocal {
+					if al.Referrers() != nil {
+						for _, r2 := range *al.Referrers() {
+							if ld, isLd := r2.(*ssa.UnOp); isLd && walk(ld) {
+								return true
+							}
+						}
+					}
+					continue
+				}
+				return true
+			case *ssa.Phi, *ssa.MakeInterface, *ssa.ChangeType, *ssa.ChangeInterface, *ssa.TypeAssert, *ssa.Extract, *ssa.Convert:
+				if walk(x.(ssa.Value)) {
+					return true
+				}
+			case *ssa.MapUpdate, *ssa.Send:
+				return true
+			case *ssa.MakeClosure:
+				return true
+			case ssa.CallInstruction:
+				com := x.Common()
+				if builtinName(com) != "" {
+					continue
+				}
+				args := argsWithRecv(com)
+				callee := com.StaticCallee()
+				for ai, a := range args {
+					if a != v {
+						continue
+					}
+					if callee == nil {
+						return true // dynamic call: unknown
+					}
+					if callee.Blocks == nil || !strings.HasPrefix(fnPkgPath(callee), repoMod) {
+						if nonRetainingExternals[fnPkgPath(callee)+"."+callee.Name()] {
+							continue
+						}
+						return true
+					}
+					if paramMayEscape(callee, ai, depth+1, visiting) {
+						return true
+					}
+				}
+				if _, isGo := x.(*ssa.Go); isGo {
 					return true
 				}
 			}
 		}
+		return false
 	}
-	return false
+	return walk(fn.Params[idx])
 }
 
 // noAliasIn (C11-O1, shared with C17): the function-data store never keeps an
